@@ -85,8 +85,15 @@ var c18OnlyNonEmpty bool
 
 // c18Node builds the node kind under test (forks on the kind; the action stays symbolic)
 func c18Node(act Action) Node {
-	kinds := 16
+	kinds := 17
 	switch vChoice("kind", kinds) {
+	case 16:
+		// a flow used as a node that ends because its last node's action is connected to nil
+		vCover("kind-flow-ending-on-a-nil-connection")
+		inner := &vSimpleNode{act: act}
+		f := NewFlow(inner)
+		f.Connect(inner, DefaultAction, nil).Connect(inner, act, nil)
+		return f
 	case 15:
 		// a post that FAILS — with an error that wraps a context error although the run's context is
 		// alive (its own inner timeout): the run fails; if it is reported as a success, then not with
